@@ -5,6 +5,7 @@ package main
 import (
 	"fmt"
 	"go/ast"
+	"go/constant"
 	"go/token"
 	"go/types"
 	"sort"
@@ -115,6 +116,7 @@ func checkC05(ctx *Ctx, r *Report) {
 	c05SubstitutedContentRevisited(ctx, r)
 	c05EntryPointFollowsRemoval(ctx, r)
 	c05OpenAPIMappingNames(ctx, r)
+	c05RefFilePattern(ctx, r)
 	c15ReferenceSiblings(ctx, r)
 	c07ReferenceByBareName(ctx, r)
 }
@@ -1815,4 +1817,43 @@ func c05ProcessedPackageTest(ctx *Ctx, info *types.Info, pass *types.Named, cond
 		})
 	}
 	return filled && !otherStores
+}
+
+// c05RefFilePattern: getRefName of the OpenAPI front-end decides with a regular expression whether a `$ref` points
+// into another file; everything else is a reference into the same document. The expression must match a real
+// extension: the dot before (json|yml) is escaped and the extension is followed by the end of the string, `/` or `#`.
+// Otherwise `#/components/schemas/Geojson` (any char + "json") is taken for a file and the reference gets a package
+// made of the start of the pointer.
+func c05RefFilePattern(ctx *Ctx, r *Report) {
+	fn := ctx.LookupMethod("internal/openapi", "generator", "getRefName")
+	fd, p := ctx.DeclOf(fn)
+	if fd == nil || fd.Body == nil {
+		r.Undecided("anchor lost: openapi.generator.getRefName")
+		return
+	}
+	info := p.TypesInfo
+	n := 0
+	ast.Inspect(fd.Body, func(m ast.Node) bool {
+		c, ok := m.(*ast.CallExpr)
+		if !ok || len(c.Args) != 1 {
+			return true
+		}
+		f := callee(info, c)
+		if f == nil || f.Pkg() == nil || f.Pkg().Path() != "regexp" {
+			return true
+		}
+		tv, ok := info.Types[c.Args[0]]
+		if !ok || tv.Value == nil {
+			return true
+		}
+		n++
+		pattern := constant.StringVal(tv.Value)
+		escaped := strings.Contains(pattern, `\.(json|yml)`) || strings.Contains(pattern, `\.(yml|json)`)
+		anchored := strings.Contains(pattern, `)($|`) || strings.HasSuffix(pattern, `)$`)
+		r.Check(escaped && anchored, "frontier/ref-file-pattern", "openapi.getRefName file-reference pattern", c.Pos(), "the extension is a literal dot followed by json / yml, at the end or before `/` or `#`",
+			"the pattern "+pattern+" matches any character before json / yml anywhere in the reference: a same-document reference to a schema named Geojson or Appyml is taken for a reference into a file, and names no object")
+		return true
+	})
+	r.Count("regular expressions in openapi.getRefName", n)
+	r.Floor("regular expressions in openapi.getRefName", 1)
 }
